@@ -11,6 +11,7 @@
 package main
 
 import (
+	"bufio"
 	"bytes"
 	"encoding/binary"
 	"encoding/json"
@@ -859,6 +860,71 @@ func liveServer() {
 						}
 						run.Distinct(fmt.Sprintf("live|%v|%v|%s", mux, inStream, v.name))
 					}(v)
+				}
+			}
+			// the same first messages over the websocket carrier of the control port (GET /~!frp upgrade written by hand:
+			// with an Origin header, without one, and with an opaque one — frpc always sends one, other peers need not)
+			for _, v := range vars {
+				for oi, origin := range []string{"Origin: http://127.0.0.1\r\n", "", "Origin: null\r\n"} {
+					if !run.Thorough() && oi == 2 && len(v.name)%2 == 0 {
+						continue
+					}
+					wg.Add(1)
+					go func(v variant, origin string) {
+						defer wg.Done()
+						c, err := net.DialTimeout("tcp", fmt.Sprintf("127.0.0.1:%d", port), 5*time.Second)
+						if err != nil {
+							run.Inconclusive("live: dial failed")
+							return
+						}
+						defer c.Close()
+						_ = c.SetDeadline(time.Now().Add(20 * time.Second))
+						fmt.Fprintf(c, "GET /~!frp HTTP/1.1\r\nHost: 127.0.0.1:%d\r\nUpgrade: websocket\r\nConnection: Upgrade\r\nSec-WebSocket-Key: dGhlIHNhbXBsZSBub25jZQ==\r\nSec-WebSocket-Version: 13\r\n%s\r\n", port, origin)
+						br := bufio.NewReader(c)
+						status, err := br.ReadString('\n')
+						if err != nil {
+							run.Count("live_websocket_handshake_closed", 1)
+							return
+						}
+						for {
+							line, err := br.ReadString('\n')
+							if err != nil || line == "\r\n" {
+								break
+							}
+						}
+						if !strings.Contains(status, " 101 ") {
+							run.Count("live_websocket_upgrade_refused", 1)
+							return
+						}
+						// one masked binary frame carrying the first message
+						frame := []byte{0x82}
+						n := len(v.data)
+						switch {
+						case n < 126:
+							frame = append(frame, 0x80|byte(n))
+						default:
+							frame = append(frame, 0x80|126, byte(n>>8), byte(n))
+						}
+						mask := [4]byte{0x11, 0x22, 0x33, 0x44}
+						frame = append(frame, mask[:]...)
+						for i, b := range v.data {
+							frame = append(frame, b^mask[i%4])
+						}
+						_, _ = c.Write(frame)
+						_ = c.SetReadDeadline(time.Now().Add(45 * time.Second))
+						buf := make([]byte, 4096)
+						for {
+							_, err := br.Read(buf)
+							if err != nil {
+								if ne, ok := err.(net.Error); ok && ne.Timeout() {
+									run.Violation("malformed-first-message-connection-kept-open", "websocket carrier (%q) first message %s: connection still open after 45 s", strings.TrimSpace(origin), v.name)
+								}
+								break
+							}
+						}
+						run.Count("live_malformed_first_messages_websocket", 1)
+						run.Distinct(fmt.Sprintf("live-ws|%v|%q|%s", mux, strings.TrimSpace(origin), v.name))
+					}(v, origin)
 				}
 			}
 			// well-formed, correctly signed logins whose other fields take extreme values: accepted or refused,
